@@ -20,9 +20,9 @@ import shutil
 ID = "C02"
 DRIVER = "drv_c02"
 LEAN_TARGETS = ["PharmpyProofs.C02.Properties", "PharmpyProofs.C02.AdvanProperties", "PharmpyProofs.C02.RecordProperties",
-                "PharmpyProofs.C02.DoseProperties", "drv_c02"]
+                "PharmpyProofs.C02.DoseProperties", "PharmpyProofs.C02.ModelRecordProperties", "drv_c02"]
 PROPERTIES = ["PharmpyProofs/C02/Properties.lean", "PharmpyProofs/C02/AdvanProperties.lean", "PharmpyProofs/C02/RecordProperties.lean",
-              "PharmpyProofs/C02/DoseProperties.lean"]
+              "PharmpyProofs/C02/DoseProperties.lean", "PharmpyProofs/C02/ModelRecordProperties.lean"]
 LEAN_SOURCES = ["PharmpyModel/Core/*.lean", "PharmpyModel/C02/*.lean", "PharmpyModel/Generated/PkConv.lean",
                 "PharmpyProofs/C02/*.lean", "Drivers/C02.lean"]
 TIME_LIMIT = {"quick": 900, "thorough": 3000}
@@ -37,7 +37,8 @@ RULE = ("three case kinds from one PRNG: (lcs) integer lists old/new, new derive
         "number of compartments) from ONE parent object, parents mostly with an active numeric CMT data column; distinct = distinct case JSON; every run also contains the full "
         "product {absorption shape} x {lag time + bioavailability in either order} x {17 final transformations} (204 light histories; the 136 with a depot in the quick tier) and "
         "{9 start models read from files whose data carry CMT and/or RATE columns (zero / mixed)} x {7 column-rewriting transformations + one "
-        "two-step walk}, written to disk and read back (72 histories)")
+        "two-step walk}, written to disk and read back (72 histories), and 96 light histories enter general-linear/$DES state -> "
+        "change compartments -> return to a specific ADVAN -> change compartments")
 TRUSTED = [
     "Lean 4.33 kernel; axioms propext, Quot.sound, Classical.choice only (audited per theorem each run)",
     "hand-written models PharmpyModel/C02/{Lcs,Advan,PkConv}.lean tied to lcs.py/update.py/statements.py by the correspondence run",
@@ -129,7 +130,7 @@ SHAPES = {
 
 
 def budget(tier):
-    return int(os.environ.get("VERIF_BUDGET", 0)) or {"quick": 160, "thorough": 4500}[tier]
+    return int(os.environ.get("VERIF_BUDGET", 0)) or {"quick": 160, "thorough": 3000}[tier]
 
 
 # ---------------------------------------------------------------- generation
@@ -253,6 +254,28 @@ def data_product_cases():
     return out
 
 
+def general_state_product_cases():
+    """Deterministic part of every run: enter the general-linear / $DES state, change the compartments there, return to a
+    specific ADVAN, change the compartments again (light: state monitor after every step, code checked after the last)."""
+    enters = [([["set_michaelis_menten_elimination", {}]], ["set_first_order_elimination", {}]),
+              ([["set_mixed_mm_fo_elimination", {}]], ["set_first_order_elimination", {}]),
+              ([["set_zero_order_elimination", {}]], ["set_first_order_elimination", {}]),
+              ([["set_first_order_absorption", {}], ["set_transit_compartments", {"n": 1}]], ["set_transit_compartments", {"n": 0}]),
+              ([["set_first_order_absorption", {}], ["set_transit_compartments", {"n": 2}]], ["set_transit_compartments", {"n": 0}]),
+              ([["set_peripheral_compartments", {"n": 3}]], ["set_peripheral_compartments", {"n": 1}])]
+    changes = [["set_first_order_absorption", {}], ["set_instantaneous_absorption", {}], ["add_peripheral_compartment", {}],
+               ["remove_peripheral_compartment", {}]]
+    out = []
+    n = 0
+    for enter, back in enters:
+        for c1 in changes:
+            for c2 in changes:
+                n += 1
+                out.append({"kind": "history", "start": "pheno" if n % 3 else "a2t2", "ops": list(enter) + [c1, back, c2],
+                            "light": True, "seed": 300000 + n})
+    return out
+
+
 def gen_cov_history(rng):
     """Statement-level histories: covariate effects (incl. ones printed as several logical IFs), IOV/IIV, error models,
     interleaved with structural steps; code is generated after every step."""
@@ -346,7 +369,7 @@ def gen_cases(rng, n, tier):
             out.append(gen_dose_history(rng))
         else:
             out.append(gen_branch(rng))
-    return out + dose_product_cases(tier) + data_product_cases()
+    return out + dose_product_cases(tier) + data_product_cases() + general_state_product_cases()
 
 
 def corpus_cases():
@@ -1177,6 +1200,23 @@ def stale_reserved(model, kind_):
     return False
 
 
+def map_state_monitor(model, label, mon, tags):
+    """State invariant after EVERY update_source: the compartment numbering remembered in the model internals
+    (`compartment_map`, from which the next structural change renumbers Sn / A(n) / Kij / CMT) is the numbering of the
+    control stream just generated (= compartment_names: $MODEL order, or the fixed numbering of the specific ADVAN)."""
+    cs = model.statements.ode_system
+    cmap0 = model.internals.compartment_map
+    if cs is None or cmap0 is None:
+        return
+    tags.append("map-state-checked")
+    cmap = {kk: v for kk, v in cmap0.items() if kk != "OUTPUT"}
+    want = {nm: i + 1 for i, nm in enumerate(cs.compartment_names)}
+    if cmap != want:
+        des = bool(model.internals.control_stream.get_records("DES"))
+        mon.append({"cls": "stale-compartment-map-on-des-path" if des else "stale-compartment-map-on-advan-path",
+                    "what": f"{label}: model.internals.compartment_map is {cmap}, the generated control stream numbers the compartments {want}"})
+
+
 def des_map_stale(model):
     cs = model.statements.ode_system
     if cs is None or not model.internals.control_stream.get_records("DES"):
@@ -1296,6 +1336,32 @@ def _pk_wire(before):
     return [[str(st.symbol), str(st.expression)] for st in before if isinstance(st, Assignment)]
 
 
+def model_record_k(drv, model, k, tags, label):
+    """update_model_record on the reached model (its own ADVAN, and the general ADVAN5): remembered map and $MODEL vs Lean."""
+    cs = model.statements.ode_system
+    if model.internals.compartment_map is None or len({c.name for c in cs._g.nodes if c != output}) < len(cs._g.nodes) - 1:
+        return
+    c_advan, _ = code_advan(model)
+    solver = bool(model.execution_steps[0].solver) if len(model.execution_steps) > 0 else False
+    old_mr = code_model_record(model)
+    for advan in [c_advan, "ADVAN5"]:
+        if advan is None:
+            continue
+        try:
+            r = U.update_model_record(model, advan)
+        except Exception as e:
+            tags.append(f"update_model_record-raises-{type(e).__name__}")
+            continue
+        real_map = [[kk, str(v)] for kk, v in r.internals.compartment_map.items()]
+        rm = code_model_record(r)
+        ans = drv.ask(["modelrec", advan, solver, cs.compartment_names,
+                       [[kk, v] for kk, v in model.internals.compartment_map.items()], old_mr if old_mr is not None else "none"])
+        real = [real_map, rm if rm is not None else "none"]
+        if ans != real:
+            k.append(f"{label}: update_model_record({advan}): model {ans} code {real}")
+        tags.append("k:update_model_record")
+
+
 def dose_updater_k(drv, model, k, tags, label, rng):
     """update_bio / update_lag_time on the reached model with the dosing compartment's attribute replaced by
     (1 | Fn | another reserved F | another symbol | an expression): real result vs the Lean updaters."""
@@ -1381,6 +1447,7 @@ def run_history(case, drv):
             done += 1
             tags.append(f"op:{name}")
             model_origin = track_origin(stale_origin, model, name)
+            map_state_monitor(model, f"{case['start']}+{name} (step {done})", mon, tags)
             if case.get("light") and [name, kw] != case["ops"][-1]:
                 continue
             if twin is not None:
@@ -1432,6 +1499,7 @@ def run_history(case, drv):
                                     "what": f"{label}: $MODEL lists {mr}, compartment numbering is {cs.compartment_names}"})
             if cs is not None and drv is not None and not case.get("light"):
                 dose_updater_k(drv, model, k, tags, label, rng)
+                model_record_k(drv, model, k, tags, label)
             # ---- Mon: node index of the code records the next update_source will work from
             for getter in ("get_pred_pk_record", "get_error_record"):
                 try:
@@ -1612,6 +1680,7 @@ def run_branch(case, drv):
                     child.code
                     applied.append(name)
                     track_origin(origin, child, name)
+                    map_state_monitor(child, f"{case['start']} | sibling {bi + 1}: {'+'.join(applied)}", mon, tags)
                 except Exception as e:
                     tags.append(f"op-refused:{name}:{type(e).__name__}")
             if not applied:
